@@ -64,6 +64,9 @@ func (v DenseInt32Vector) AT(i int) Int32 {
   return Int32{&v[i]}
 }
 func (v DenseInt32Vector) APPEND(w DenseInt32Vector) DenseInt32Vector {
+  // v might be a slice of a longer vector, do not
+  // overwrite the elements behind it
+  v = v[:len(v):len(v)]
   return append(v, w...)
 }
 func (v DenseInt32Vector) ToDenseInt32Matrix(n, m int) *DenseInt32Matrix {
@@ -114,12 +117,18 @@ func (v DenseInt32Vector) Swap(i, j int) {
   v[i], v[j] = v[j], v[i]
 }
 func (v DenseInt32Vector) AppendScalar(scalars ...Scalar) Vector {
+  // v might be a slice of a longer vector, do not
+  // overwrite the elements behind it
+  v = v[:len(v):len(v)]
   for _, scalar := range scalars {
     v = append(v, scalar.GetInt32())
   }
   return v
 }
 func (v DenseInt32Vector) AppendVector(w Vector) Vector {
+  // v might be a slice of a longer vector, do not
+  // overwrite the elements behind it
+  v = v[:len(v):len(v)]
   for i := 0; i < w.Dim(); i++ {
     v = append(v, w.ConstAt(i).GetInt32())
   }
